@@ -63,6 +63,12 @@ func NewGrafanaNetConfig(addr, apiKey, schemasFile, aggregationFile string) (Gra
 	if !strings.HasSuffix(u.Path, "/metrics") && !strings.HasSuffix(u.Path, "/metrics/") {
 		return GrafanaNetConfig{}, fmt.Errorf("NewGrafanaNetConfig: invalid value for 'addr': %q. needs to be a /metrics endpoint", addr)
 	}
+	// the schemas and aggregation endpoints are derived from the address as written (see getGrafanaNetAddr),
+	// so the address itself - not only its decoded path - has to end on /metrics or /metrics/:
+	// no query string, no fragment, no percent-encoded spelling of the suffix
+	if !strings.HasSuffix(addr, "/metrics") && !strings.HasSuffix(addr, "/metrics/") {
+		return GrafanaNetConfig{}, fmt.Errorf("NewGrafanaNetConfig: invalid value for 'addr': %q. needs to end on /metrics (no query string or fragment)", addr)
+	}
 
 	if apiKey == "" {
 		return GrafanaNetConfig{}, errors.New("NewGrafanaNetConfig: invalid value for 'apiKey'. value must be set to non-empty string")
